@@ -48,6 +48,8 @@ type histRec struct {
 	What      string `json:"what"`
 	// Conc is set for violations of the concurrent part (conc.go); Container is "conc" then.
 	Conc *concReplay `json:"conc,omitempty"`
+	// Disc is set for violations of the discipline part (disc.go, discgate.go); Container is "disc" then.
+	Disc *discReplay `json:"disc,omitempty"`
 }
 
 // opSpec describes one operation class of a generator table.
@@ -416,6 +418,13 @@ func replay(c *vf.Ctx) {
 		fmt.Fprintln(os.Stderr, err)
 		os.Exit(3)
 	}
+	if r.Container == "disc" {
+		if r.Disc == nil {
+			r.Disc = &discReplay{}
+		}
+		discReplayRun(c, r.Disc)
+		return
+	}
 	if r.Container == "conc" {
 		if r.Conc == nil {
 			r.Conc = &concReplay{}
@@ -444,12 +453,16 @@ func run(c *vf.Ctx) {
 		replay(c)
 		return
 	}
-	c.SetRule("per container, history i uses configuration i mod #configs and an operation list drawn from a weighted op table by a PRNG derived from (seed, container, i); one evaluation = one operation applied to implementation and model with all observers compared afterwards; distinct_nontrivial = distinct (container, configuration, abstract model state) triples reached; distinct_states:<container> the same per container; <container>:<note> counters count the situations the expected defects and the mutations need (wrap-arounds, rebuilds, seen-then-new PushFront, limit drops on foreign topics, ...); every slice/map/copy a container returns is kept by the caller together with a deep copy, re-compared after each of the following steps (<container>:held_rechecks) and, for two thirds of them, reordered/overwritten/extended within capacity on the caller's side (<container>:held_scribbles); argument slices are overwritten after the call. Part conc (self-synchronising containers only: ShrinkingMap, RandomMap, Queue, RingBuffer, thread-safe Stack, PriorityQueue, timed.PriorityQueue, BytesFilter, TimeHeap, IndexedStorage, OnChangeMap, SubscriptionManager): history i of a definition uses configuration i mod #configs, 3-6 goroutines released by a spin barrier x 4-10 operations drawn by a PRNG derived from (seed, definition, i), unique values, seeded Gosched jitter (also inside callbacks), call/return stamps from one atomic counter, a sequential setup prefix and a quiescent tail of reads/drains; conc:evaluations = recorded operations handed to porcupine; conc:overlapping_pairs = pairs of operations of different goroutines whose [call,return] windows intersect; distinct_conc_shapes = distinct stamp-ordered call/return sequences of histories with at least one such pair; conservation scenarios (single-writer keys, determined final state) run a fixed number of rounds per variant; the same workloads run in a -race child, every second history/round without the stamping counter")
+	c.SetRule("per container, history i uses configuration i mod #configs and an operation list drawn from a weighted op table by a PRNG derived from (seed, container, i); one evaluation = one operation applied to implementation and model with all observers compared afterwards; distinct_nontrivial = distinct (container, configuration, abstract model state) triples reached; distinct_states:<container> the same per container; <container>:<note> counters count the situations the expected defects and the mutations need (wrap-arounds, rebuilds, seen-then-new PushFront, limit drops on foreign topics, ...); every slice/map/copy a container returns is kept by the caller together with a deep copy, re-compared after each of the following steps (<container>:held_rechecks) and, for two thirds of them, reordered/overwritten/extended within capacity on the caller's side (<container>:held_scribbles); argument slices are overwritten after the call. Part conc (self-synchronising containers only: ShrinkingMap, RandomMap, Queue, RingBuffer, thread-safe Stack, PriorityQueue, timed.PriorityQueue, BytesFilter, TimeHeap, IndexedStorage, OnChangeMap, SubscriptionManager): history i of a definition uses configuration i mod #configs, 3-6 goroutines released by a spin barrier x 4-10 operations drawn by a PRNG derived from (seed, definition, i), unique values, seeded Gosched jitter (also inside callbacks), call/return stamps from one atomic counter, a sequential setup prefix and a quiescent tail of reads/drains; conc:evaluations = recorded operations handed to porcupine; conc:overlapping_pairs = pairs of operations of different goroutines whose [call,return] windows intersect; distinct_conc_shapes = distinct stamp-ordered call/return sequences of histories with at least one such pair; conservation scenarios (single-writer keys, determined final state) run a fixed number of rounds per variant; the same workloads run in a -race child, every second history/round without the stamping counter. Part disc (disc.go, discgate.go; every entry point that runs user code): history i of a container derives from (seed, container, i); sequential single-goroutine histories in a timer-free child in which user code re-enters the container where the unchanged tree lets it return (disc:reentrant_calls, distinct_disc_reentrant_call_kinds = distinct (container, entry point > nested call) pairs) or panics / returns an error and the object is used again (disc:failing_user_code, disc:followups_after_failure); gate histories in which one user function parks at a harness gate while 2-4 other goroutines make one call each (disc:gate_user_function_parked; blocked/returned only counted), decided by porcupine with the user functions of Delete-with-condition, Compute and Modify inside the atomic step (disc:gate_chained_calls_during_window = such calls by the other goroutines while the gate was closed)")
 	histories := c.Pick(1000, 50000)
 	workers := runtime.NumCPU()
 	if only := os.Getenv("C12_ONLY"); only != "" { // development aid: restrict to one container (or to the concurrent part)
 		if only == "conc" {
 			concPart(c)
+			return
+		}
+		if only == "disc" {
+			discPart(c)
 			return
 		}
 		for _, d := range defs {
@@ -463,11 +476,16 @@ func run(c *vf.Ctx) {
 		runDef(c, d, histories, workers)
 	}
 	// returned aggregates are caller-owned (held.go): the containers that hand out slices/maps/copies must have been held and scribbled
-	for _, n := range []string{"shrinkingmap", "randommap", "ringbuffer", "priorityqueue", "timedpriorityqueue", "indexedstorage", "onchangemap"} {
+	for _, n := range []string{"shrinkingmap", "randommap", "ringbuffer", "priorityqueue", "timedpriorityqueue", "indexedstorage", "onchangemap", "submgr"} {
 		c.Require(n+":held_rechecks", histories*20)
 		c.Require(n+":held_scribbles", histories)
 	}
+	// callback/event arguments are held results too: event objects of SubscriptionManager (several events of one kind in one call
+	// are the situation a reused event object shows in), slice and item arguments of OnChangeMap's callbacks
+	c.Require("submgr:held_events_of_one_kind_in_one_call", histories)
+	c.Require("onchangemap:held_callback_arguments", histories*4)
 	concPart(c)
+	discPart(c)
 	c.SetExhaustive(false)
 	c.Require("evaluations", 13*histories*30)
 	c.Require("configs", 40)
